@@ -62,6 +62,10 @@ def mutations(rng, req):
         yield 'electre-v-not-above-p', mut(lambda r: r['methodParameters']['electreCriteria'][cs[0]].update(q={'b': PU}, p={'b': 3 * PU}, v={'b': 2 * PU})), 'reject', {}
         yield 'electre-q-negative', mut(lambda r: r['methodParameters']['electreCriteria'][cs[0]].update(q={'b': -PU})), 'reject', {}
         yield 'electre-criterion-missing', mut(lambda r: r['methodParameters']['electreCriteria'].pop(cs[0])), 'reject', {}
+        # admissible distillation functions at the edge: zero everywhere, zero at credibility 1, no coefficients given
+        yield 'electre-distillation-zero', mut(lambda r: r['methodParameters'].update(electreDistillation={'a': 0, 'b': 0})), 'ok', {'timeoutSec': 40}
+        yield 'electre-distillation-zero-at-one', mut(lambda r: r['methodParameters'].update(electreDistillation={'a': -(PU // 4), 'b': PU // 4})), 'ok', {'timeoutSec': 40}
+        yield 'electre-distillation-empty', mut(lambda r: r['methodParameters'].update(electreDistillation={'emptyobj': True})), 'any', {'timeoutSec': 40}
         yield 'electre-distillation-negative', mut(lambda r: r['methodParameters'].update(electreDistillation={'a': {'n': -1, 'd': 5}, 'b': {'n': 1, 'd': 10}})), 'reject', {'structured': False, 'timeoutSec': 40}
         yield 'electre-distillation-negative-b', mut(lambda r: r['methodParameters'].update(electreDistillation={'a': 0, 'b': -PU // 8})), 'reject', {'timeoutSec': 40}
     if m == 'majorityHeuristic':
@@ -167,6 +171,31 @@ def catalogue(tier, rng):
             mp['function'] = rng.choice(['idealSubtractiveCoefficient', 'idealMultipliedCoefficient'])
             mp['params'] = {'coefficient': PU // 2, 'minValue': PU // 4, 'maxValue': PU}
         add('valid-identical-alternatives', req=r, expect='ok')
+    # many alternatives (the service may treat big requests differently): valid ones are answered, and a value for a
+    # criterion nobody declared - whatever the answer to that is - must not cost the process
+    for b in bases:
+        r = copy.deepcopy(b)
+        proto = r['knownAlternatives']
+        big = []
+        for i in range(20):
+            a = copy.deepcopy(proto[i % len(proto)])
+            a['id'] = 'big%02d' % i
+            for c in a['criteria']:
+                a['criteria'][c] += PU * (i % 3)
+            big.append(a)
+        r['knownAlternatives'] = big
+        r['choseToMake'] = [a['id'] for a in big[:18]]
+        mp = r['methodParameters']
+        if 'currentChoice' in mp:
+            mp['currentChoice'] = big[19]['id']
+        for bb in r.get('biases', []):
+            if bb['name'] == 'anchoring':
+                for aa in bb['props'].get('anchoringAlternatives', []):
+                    aa['alternative'] = big[0]['id']
+        add('valid-many-alternatives', req=r, expect='ok')
+        r2 = copy.deepcopy(r)
+        r2['knownAlternatives'][17]['criteria']['zz_nobody_declared'] = PU
+        add('many-alternatives-undeclared-value', req=r2, expect='any')
     for b in bases[::2]:
         for label, r, exp, kw in mutations(rng, b):
             add(label, req=r, expect=exp, **kw)
